@@ -302,6 +302,9 @@ def make_values(rng, default):
         from ..hgen import MAGIC
 
         vals.append(rng.choice(MAGIC))
+    if rng.random() < 0.12:
+        # values are unbounded: sizes around and far beyond one length byte
+        vals.append(bytes([rng.randrange(1, 256)]) * rng.choice([255, 256, 257, 300, 1000, 5000]))
     if rng.random() < 0.5:
         vals.append(b"")
     if default and rng.random() < 0.4:
